@@ -587,7 +587,7 @@ theorem ViewOf.mono {s : State} {sel : Sel} {κ1 κ2 : Nat → String} {s1 s2 : 
   exact ⟨h.key, h.src.mono hext.1, h.len, r1.trans h.rows, r2.trans h.dt, r3.trans h.trail, h.view, h.copy⟩
 
 theorem getItem_views {κ : Nat → String} {s : State} (h : InvK κ s) (o : Nat) (sel : Sel)
-    (hpos : ∀ p ∈ sel.pos, p < (s.obj o).natoms) :
+    (hpos : ∀ p ∈ sel.pos, p < (s.obj o).natoms) (hselnd : sel.view = true → sel.pos.Nodup) :
     Post (mapEach (s.obj o).props (fun p => do
         let a ← indexGet p.arr sel
         pure (⟨p.key, a⟩ : PropRef))) s
@@ -621,7 +621,8 @@ theorem getItem_views {κ : Nat → String} {s : State} (h : InvK κ s) (o : Nat
       subst this
       have hcopy : sel.view = false → s.heap.length ≤ (subArr p.arr sel).buf := by
         intro hc; rw [hview] at hc; cases hc
-      exact ⟨rfl, ⟨subArr_valid hpv sel hposl, hpk⟩, by simp [subArr], hsub0.1, hp0r.2.1, hp0r.2.2, fun _ => rfl, hcopy⟩
+      exact ⟨rfl, ⟨subArr_valid hpv sel hposl, hpk, subArr_nodup p.arr sel hp0.nodup hposl (hselnd hview)⟩,
+        by simp [subArr], hsub0.1, hp0r.2.1, hp0r.2.2, fun _ => rfl, hcopy⟩
     · apply Post.of_eq _ _ he
       simp only []
       rw [post_pure]
@@ -639,7 +640,7 @@ theorem getItem_views {κ : Nat → String} {s : State} (h : InvK κ s) (o : Nat
       have hnoview : sel.view = true →
           (⟨st.heap.length, List.range sel.pos.length⟩ : Arr) = subArr p.arr sel := by
         intro hc; rw [hview] at hc; cases hc
-      refine ⟨rfl, ⟨⟨by simp, ?_⟩, by simp [upd]⟩, by simp, ?_, ?_, ?_, hnoview, fun _ => hgh.len⟩
+      refine ⟨rfl, ⟨⟨by simp, ?_⟩, by simp [upd], List.nodup_range⟩, by simp, ?_, ?_, ?_, hnoview, fun _ => hgh.len⟩
       · intro i hi
         rw [buf_append_eq]
         simpa [hlen] using hi
@@ -816,7 +817,7 @@ theorem getItem_refines {κ : Nat → String} {s : State} (h : InvK κ s) (o : N
     simp only []
     obtain ⟨hpos, _⟩ := resolve_ok _ _ _ hres
     rw [post_bind]
-    apply Post.mono (getItem_views h o sel hpos)
+    apply Post.mono (getItem_views h o sel hpos (resolve_view_nodup _ _ _ hres))
     intro r s1 ⟨κ1, ⟨hinv1, hext1, hheap1, hobjs1, hsys1⟩, _, hall⟩
     cases r with
     | error e =>
@@ -905,7 +906,7 @@ theorem deepcopy_views {κ : Nat → String} {s : State} (h : InvK κ s) (o : Na
     have hnoview : (copySel (s.obj o).natoms).view = true →
         (⟨st.heap.length, List.range (arrRows s p.arr).length⟩ : Arr) = subArr p.arr (copySel (s.obj o).natoms) := by
       intro hc; simp [copySel] at hc
-    refine ⟨rfl, ⟨⟨by simp, ?_⟩, by simp [upd]⟩, by simp [copySel, hlen], ?_, ?_, ?_, hnoview, fun _ => hgh.len⟩
+    refine ⟨rfl, ⟨⟨by simp, ?_⟩, by simp [upd], List.nodup_range⟩, by simp [copySel, hlen], ?_, ?_, ?_, hnoview, fun _ => hgh.len⟩
     · intro i hi
       rw [buf_append_eq]
       simpa using hi
